@@ -285,49 +285,48 @@ func runC04(c *Ctx) {
 		}
 	}
 	if r.FnExec != nil {
-		fs := c.frameSwitchFn()
 		construct := fmt.Sprintf("%s: one dispatch per dequeued frame", fname(r.FnExec))
-		if fs == nil || !p.inCone(r.FnExec, fs.Blocks[0].Instrs[0]) {
-			c.bad("R04.5", construct, p.pos(r.FnExec.Pos()), "the frame switch is not reached synchronously from the executor")
-		} else {
-			// call sites (in the executor's cone) that lead into the frame switch
-			var leads []ssa.Instruction
-			p.coneInstrs(r.FnExec, func(in ssa.Instruction) {
-				if g := p.syncCallee(in); g != nil && p.syncReachable(g, fs) && in.Parent() != fs {
-					leads = append(leads, in)
+		// the frame switch = the tests of the frame's method, wherever they live (own function or inlined)
+		var tests []ssa.Instruction
+		mf := respFieldByTag(r.TFrame, "method")
+		for _, fn := range p.Funcs {
+			allInstrsRaw(fn, func(in ssa.Instruction) {
+				iff, ok := in.(*ssa.If)
+				if !ok {
+					return
+				}
+				bo, ok := iff.Cond.(*ssa.BinOp)
+				if !ok || bo.Op != token.EQL {
+					return
+				}
+				var other ssa.Value
+				if _, ok := constString(bo.Y); ok {
+					other = bo.X
+				} else if _, ok := constString(bo.X); ok {
+					other = bo.Y
+				}
+				if other != nil && mf != nil && c.fieldVal(other, mf) {
+					tests = append(tests, in)
 				}
 			})
-			isLead := func(x ssa.Instruction) bool {
-				for _, l := range leads {
-					if x == l {
-						return true
-					}
+		}
+		if len(tests) == 0 {
+			c.bad("R04.5", construct, p.pos(r.FnExec.Pos()), "the frame switch is not reached synchronously from the executor")
+		} else {
+			ok := true
+			for _, t := range tests {
+				t := t
+				if !p.inCone(r.FnExec, t) {
+					ok = false
+					c.bad("R04.5", construct, c.ipos(t), "the frame switch is not reached synchronously from the executor")
+					continue
 				}
-				return false
-			}
-			deq := func(x ssa.Instruction) bool {
-				sel, ok := x.(*ssa.Select)
-				if !ok {
-					return false
-				}
-				for _, st := range sel.States {
-					if c.fieldVal(st.Chan, r.FQueue) {
-						return true
-					}
-				}
-				return false
-			}
-			ok := len(leads) > 0
-			for _, l := range leads {
-				// a second lead reachable without dequeuing again (nested leads in the same chain are one dispatch)
-				s2 := newIPSearch(func(x ssa.Instruction) bool { return isLead(x) && !p.inCone(p.syncCallee(l), x) }, deq)
-				s2.flat = true
-				s2.up = true
-				if s2.scan(l.Block(), instrIndex(l)+1, nil) {
+				// entering the same test twice without dequeuing in between = the frame is dispatched again
+				if reachFromUp(t, func(x ssa.Instruction) bool { return x == t }, nil) != nil {
 					ok = false
 				}
 			}
-			c.check(ok, "R04.5", construct, p.pos(fs.Pos()), "exactly one dispatch between two dequeues", "a dequeued frame can be dispatched more than once (or not exactly once per dequeue)")
+			c.check(ok, "R04.5", construct, c.ipos(tests[0]), "exactly one dispatch between two dequeues", "a dequeued frame can be dispatched more than once (or not exactly once per dequeue)")
 		}
 	}
 
